@@ -16,7 +16,10 @@
                  translator "c15 ops" (coq/gen/C15Ops.v).
    3. [interp]   a hand-written mirror of EVMInterpreter.Run (interpreter.go),
                  parameterised by the jump table regenerated from the running
-                 code (coq/gen/C15Table.v) and by the translated bodies.
+                 code (coq/gen/C15Table.v) and by the translated bodies (one per
+                 opcode; the closures makePush/makeDup/makeSwap are translated
+                 with their parameters and instantiated with the arguments
+                 written in jump_table.go).
 
    Beside it stands the SPECIFICATION: a pure stack machine over Z modulo
    2^256 written from the EVM specification (yellow paper + EIP-145), which
@@ -83,10 +86,6 @@ Definition int64_of (x : Z) : Z :=                                    (* x.Int64
   let v := wrap_i64 (Z.abs x mod tt64) in
   if x <? 0 then wrap_i64 (- v) else v.
 Definition bitlen_of (x : Z) : Z := if x =? 0 then 0 else Z.log2 (Z.abs x) + 1.
-
-(* math.Byte(bigint, padlength, n) = n'th byte of the padlength-byte big-endian form *)
-Definition byte_of (x pad n : Z) : Z :=
-  if n >=? pad then 0 else (Z.abs x / 2 ^ (8 * (pad - 1 - n))) mod 256.
 
 (* the loop of math.Exp after result := 1: one iteration per bit of the words
    of the exponent (64 per word, least significant first) *)
@@ -244,7 +243,6 @@ with iexp :=                                (* machine integers *)
 | IInt64 (x : pexp)
 | IBitLen (x : pexp)
 | IBit (x : pexp) (i : iexp)
-| IByte (x : pexp) (pad n : iexp)           (* math.Byte(x, pad, n) *)
 | IMemLen                                   (* memory.Len() *)
 | IStackLen                                 (* st.len() *)
 | ICodeLen                                  (* len(contract.Code) *)
@@ -403,11 +401,6 @@ with eval_i (e : iexp) (en : env) (c : cfg) {struct e} : option (Z * cfg) :=
     do (lx, c1) <- eval_p x en c;
     do (k, c2) <- eval_i i en c1;
     if k <? 0 then None else Some (Z.b2z (Z.testbit (heap c2 lx) k), c2)
-  | IByte x pad n =>
-    do (lx, c1) <- eval_p x en c;
-    do (p, c2) <- eval_i pad en c1;
-    do (k, c3) <- eval_i n en c2;
-    Some (byte_of (heap c3 lx) p k, c3)
   | IMemLen => Some (Z.of_nat (length (mem c)), c)
   | IStackLen => Some (Z.of_nat (length (stack c)), c)
   | ICodeLen => Some (Z.of_nat (length code), c)
@@ -513,7 +506,7 @@ Fixpoint exec (s : stmt) (en : env) (c : cfg) {struct s}
 
 End Eval.
 
-(* code bytes of a PUSHn at pc, right padded *)
+(* SPECIFICATION side: the operand of a PUSHn at pc - the n code bytes after pc, right padded *)
 Definition get_op (code : list N) (pc : N) : N := nth (N.to_nat pc) code 0%N.
 Definition push_bytes (code : list N) (pc : N) (n : N) : list N :=
   let start := Nat.min (N.to_nat pc + 1) (length code) in
